@@ -46,8 +46,17 @@ type factT struct {
 type lfCtx struct {
 	p     *pkgInfo
 	fn    string
+	recv  string // name of the method's receiver ("" for functions)
 	facts *[]factT
 	fresh map[string]bool
+}
+
+// the receiver is written "self" in bases and lock objects, whatever the method calls it
+func (c *lfCtx) norm(base string) string {
+	if c.recv != "" && base == c.recv {
+		return "self"
+	}
+	return base
 }
 
 func exprText(fset *token.FileSet, e ast.Expr) string {
@@ -88,7 +97,7 @@ func intersect(a, b []lockT) []lockT {
 }
 
 func (c *lfCtx) add(kind, strct, field, base string, locks []lockT, pos token.Pos) {
-	*c.facts = append(*c.facts, factT{fn: c.fn, kind: kind, strct: strct, field: field, base: base, locks: copyLocks(locks),
+	*c.facts = append(*c.facts, factT{fn: c.fn, kind: kind, strct: strct, field: field, base: c.norm(base), locks: copyLocks(locks),
 		fresh: c.fresh[base], line: c.p.fset.Position(pos).Line})
 }
 
@@ -106,7 +115,7 @@ func (c *lfCtx) lockCall(call *ast.CallExpr) (lockT, bool, bool) {
 	if owner == "" {
 		return lockT{}, false, false
 	}
-	return lockT{owner, types.ExprString(sel.X)}, sel.Sel.Name == "Lock", true
+	return lockT{owner, c.norm(types.ExprString(sel.X))}, sel.Sel.Name == "Lock", true
 }
 
 // accesses records the field reads in an expression (writes are handled by the caller)
@@ -118,7 +127,7 @@ func (c *lfCtx) reads(e ast.Node, locks []lockT) {
 		switch x := n.(type) {
 		case *ast.FuncLit:
 			// a closure: analysed as its own function with an empty lockset (it may run later)
-			sub := &lfCtx{p: c.p, fn: c.fn + ".func", facts: c.facts, fresh: map[string]bool{}}
+			sub := &lfCtx{p: c.p, fn: c.fn + ".func", recv: c.recv, facts: c.facts, fresh: map[string]bool{}}
 			sub.block(x.Body.List, nil)
 			return false
 		case *ast.SelectorExpr:
@@ -157,6 +166,14 @@ func (c *lfCtx) call(call *ast.CallExpr, locks []lockT) {
 				if _, isIface := n.Underlying().(*types.Interface); isIface && opsInterfaces[n.Obj().Name()] {
 					c.add("OPS", n.Obj().Name(), sel.Sel.Name, "", locks, call.Pos())
 				}
+			}
+		}
+	}
+	// method call on a value of a tracked struct type: who is called on what
+	if sel, ok := call.Fun.(*ast.SelectorExpr); ok {
+		if s, ok := c.p.info.Selections[sel]; ok && s.Kind() == types.MethodVal {
+			if owner := namedStruct(s.Recv()); trackedStructs[owner] && sel.Sel.Name != "Lock" && sel.Sel.Name != "Unlock" {
+				c.add("CALL", owner, sel.Sel.Name, types.ExprString(sel.X), locks, call.Pos())
 			}
 		}
 	}
@@ -267,7 +284,7 @@ func (c *lfCtx) stmt(s ast.Stmt, locks []lockT) []lockT {
 			c.reads(a, locks)
 		}
 		if fl, ok := x.Call.Fun.(*ast.FuncLit); ok {
-			sub := &lfCtx{p: c.p, fn: c.fn + ".go", facts: c.facts, fresh: map[string]bool{}}
+			sub := &lfCtx{p: c.p, fn: c.fn + ".go", recv: c.recv, facts: c.facts, fresh: map[string]bool{}}
 			sub.block(fl.Body.List, nil)
 		}
 	case *ast.ReturnStmt:
@@ -399,7 +416,11 @@ func genLockFacts(repo, out string) {
 			if !ok || fd.Body == nil {
 				continue
 			}
-			c := &lfCtx{p: p, fn: funcName(fd), facts: &facts, fresh: map[string]bool{}}
+			recv := ""
+			if fd.Recv != nil && len(fd.Recv.List) > 0 && len(fd.Recv.List[0].Names) > 0 {
+				recv = fd.Recv.List[0].Names[0].Name
+			}
+			c := &lfCtx{p: p, fn: funcName(fd), recv: recv, facts: &facts, fresh: map[string]bool{}}
 			c.block(fd.Body.List, nil)
 		}
 	}
@@ -414,11 +435,11 @@ func genLockFacts(repo, out string) {
 	var b bytes.Buffer
 	b.WriteString("(* GENERATED by /verif/gen (lockfacts) from /repo's working tree on every check run. Do not edit. *)\n")
 	b.WriteString("From Coq Require Import String List Bool.\nImport ListNotations.\nLocal Open Scope string_scope.\n\n")
-	b.WriteString("Inductive akind := AR | AW | ASend | ARecv | AGo | AOps | AClose.\n")
+	b.WriteString("Inductive akind := AR | AW | ASend | ARecv | AGo | AOps | AClose | ACall.\n")
 	b.WriteString("Record lockfact := mkLF { lf_fn : string; lf_kind : akind; lf_struct : string; lf_field : string; lf_base : string;\n")
 	b.WriteString("  lf_locks : list (string * string) (* owner struct, locked object *); lf_fresh : bool }.\n\n")
 	b.WriteString("Definition lock_facts : list lockfact := [\n")
-	kindName := map[string]string{"R": "AR", "W": "AW", "SEND": "ASend", "RECV": "ARecv", "GO": "AGo", "OPS": "AOps", "CLOSE": "AClose"}
+	kindName := map[string]string{"R": "AR", "W": "AW", "SEND": "ASend", "RECV": "ARecv", "GO": "AGo", "OPS": "AOps", "CLOSE": "AClose", "CALL": "ACall"}
 	seen := map[string]bool{}
 	first := true
 	for _, f := range facts {
